@@ -19,6 +19,16 @@ theorem replayJ_le {s x : Nat} {l : List Grp} (h : AscFrom s l) (hs : s ≤ x) (
     simp only [replayJ, if_neg (Nat.not_lt.2 h1)]
     exact ih h3 (hl g List.mem_cons_self) (fun y hy => hl y (List.mem_cons_of_mem _ hy))
 
+theorem replayJ_le' {x : Nat} {l : List Grp} (hl : ∀ g ∈ l, g.fin ≤ x) {s : Nat} (hs : s ≤ x) :
+    (replayJ s l).2 ≤ x := by
+  induction l generalizing s with
+  | nil => simpa [replayJ] using hs
+  | cons g gs ih =>
+    simp only [replayJ]
+    split
+    · exact ih (fun y hy => hl y (List.mem_cons_of_mem _ hy)) hs
+    · exact ih (fun y hy => hl y (List.mem_cons_of_mem _ hy)) (hl g List.mem_cons_self)
+
 theorem journalRecs_single (d : Disk) (j : Nat) :
     journalRecs d [j] = ((lookup d.journals j).map (·.all)).getD [] := by
   simp [journalRecs]
@@ -51,22 +61,32 @@ theorem inv_recStep_replay {cfg : Cfg} {s : St} {d : Disk} (h : Inv cfg s d) {r 
   have hvj : v.jn ≤ j := htge j hjt
   rw [ht] at r3
   rw [List.pairwise_cons] at r3
+  have hview := r8 hnc
+  have hmir : Mirror s v := by
+    unfold Settled at hview
+    have hv1 := holds_some hview hparts.cur
+    rw [hlv] at hv1
+    exact hv1.2.1
+  have hbv := hb.all mf hparts.cur _ (Nat.le_refl _) v hvl
+  rw [seqHi_eq (not_trWindow_of_nojob hjob)] at hbv
+  have hstsq : s.stSq ≤ s.seq := by rw [← hmir.2.2]; exact hbv.1
   -- the journal being replayed, if it is there
   have hfile : ∀ f, lookup d.journals j = some f →
-      AscFrom s.seq f.all ∧ ∀ p ∈ d.journals, p.1 ∈ rest → ∀ g ∈ p.2.all, ∀ x ∈ f.all, x.fin ≤ g.seq := by
+      AscFrom 0 f.all ∧ ∀ p ∈ d.journals, p.1 ∈ rest → ∀ g ∈ p.2.all, ∀ x ∈ f.all, x.fin ≤ g.seq := by
     intro f hf
     have hfm : (j, f) ∈ d.journals := lookup_some_mem hf
     have hfr : (j, f) ∈ relJournals d v0.jn := mem_relJournals.2 ⟨hfm, Nat.le_trans hmono hvj⟩
-    refine ⟨(hparts.jasc _ hfr).raise (fun g hg => r6 _ hfm hjt g hg), fun p hp hpr g hg x hx => ?_⟩
+    refine ⟨hparts.jasc _ hfr, fun p hp hpr g hg x hx => ?_⟩
     have hjp : j < p.1 := r3.1 p.1 hpr
     have hpr' : p ∈ relJournals d v0.jn := mem_relJournals.2 ⟨hp, by omega⟩
     exact hparts.jord _ hfr p hpr' hjp x hx g hg
   -- the result of the replay
-  have hrp : (∀ p ∈ d.journals, p.1 = j → p.2.all = (replayJ s.seq (journalRecs d [j])).1) ∧
-      (∀ g ∈ (replayJ s.seq (journalRecs d [j])).1, g.fin ≤ (replayJ s.seq (journalRecs d [j])).2) ∧
+  have hrp : (∀ p ∈ d.journals, p.1 = j → (∀ g ∈ (replayJ s.seq (journalRecs d [j])).1, g ∈ p.2.all) ∧
+        ∀ g ∈ p.2.all, g ∈ (replayJ s.seq (journalRecs d [j])).1 ∨ g ∉ must s) ∧
+      (∀ g ∈ (replayJ s.seq (journalRecs d [j])).1, g.fin ≤ (replayJ s.seq (journalRecs d [j])).2 ∧ s.seq ≤ g.seq) ∧
       s.seq ≤ (replayJ s.seq (journalRecs d [j])).2 ∧
       ((∃ p ∈ d.journals, p.1 = j) ∨ (replayJ s.seq (journalRecs d [j])).1 = []) ∧
-      (∀ p ∈ d.journals, p.1 ∈ rest → ∀ g ∈ p.2.all, (replayJ s.seq (journalRecs d [j])).2 ≤ g.seq) := by
+      (∀ p ∈ d.journals, p.1 ∈ rest → ∀ g ∈ p.2.all, (replayJ s.seq (journalRecs d [j])).2 ≤ g.seq ∨ g ∉ must s) := by
     rw [journalRecs_single]
     cases hf : lookup d.journals j with
     | none =>
@@ -76,17 +96,22 @@ theorem inv_recStep_replay {cfg : Cfg} {s : St} {d : Disk} (h : Inv cfg s d) {r 
     | some f =>
       simp only [Option.map_some, Option.getD_some]
       obtain ⟨hasc, hord⟩ := hfile f hf
-      obtain ⟨a1, a2, a3⟩ := replayJ_asc hasc
-      refine ⟨fun p hp hpj => ?_, fun g hg => a3 g (by rw [a1] at hg; exact hg), a2,
+      obtain ⟨a1, a2, a3⟩ := replayJ_filter (s := s.seq) hasc
+      have hmemf : ∀ g, g ∈ (replayJ s.seq f.all).1 ↔ g ∈ f.all ∧ s.seq ≤ g.seq := by
+        intro g; rw [a1]; simp [List.mem_filter]
+      refine ⟨fun p hp hpj => ?_, fun g hg => ⟨a3 g ((hmemf g).1 hg).1 ((hmemf g).1 hg).2, ((hmemf g).1 hg).2⟩, a2,
         Or.inl ⟨(j, f), lookup_some_mem hf, rfl⟩, fun p hp hpr g hg => ?_⟩
       · have : lookup d.journals p.1 = some p.2 := lookup_of_mem hnd (by cases p; exact hp)
         rw [hpj, hf] at this
         cases this
-        exact a1.symm
-      · exact replayJ_le hasc (r6 p hp (by rw [ht]; exact List.mem_cons_of_mem _ hpr) g hg)
-          (fun x hx => hord p hp hpr g hg x hx)
+        refine ⟨fun g hg => ((hmemf g).1 hg).1, fun g hg => ?_⟩
+        rcases r6 _ (lookup_some_mem hf) hjt g hg with h1 | h1
+        · exact Or.inl ((hmemf g).2 ⟨hg, h1⟩)
+        · exact Or.inr h1
+      · rcases r6 p hp (by rw [ht]; exact List.mem_cons_of_mem _ hpr) g hg with h1 | h1
+        · exact Or.inl (replayJ_le' (fun x hx => hord p hp hpr g hg x hx) h1)
+        · exact Or.inr h1
   obtain ⟨p1, p2, p3, p4, p5⟩ := hrp
-  have hview := r8 hnc
   constructor
   · exact h.disk
   · exact h.mm
@@ -108,7 +133,7 @@ theorem inv_recStep_replay {cfg : Cfg} {s : St} {d : Disk} (h : Inv cfg s d) {r 
       exact r3.1 n hn
     · show MdbOK _ d _
       unfold MdbOK
-      exact ⟨p1, p2, fun _ => p4⟩
+      exact ⟨p1, fun g hg => (p2 g hg).1, fun _ => ⟨p4, fun g hg => Nat.le_trans hstsq (p2 g hg).2⟩⟩
     · unfold Settled at hview ⊢
       have hv1 := holds_some hview hparts.cur
       rw [hlv] at hv1
